@@ -150,8 +150,10 @@ def run_check(mod, tier, seed, only=None, jobs=None):
 
     # a witness that did not reproduce is only a problem if no other witness of
     # the same label reproduced
-    reproduced_labels = {e["failure"]["label"] for e in seen_keys.values() if e["replay"].get("reproduced")}
-    hard_disagreements = [d for d in disagreements if d["failure"]["label"] not in reproduced_labels]
+    # a witness that did not reproduce is tolerated only when another witness of the
+    # same case and label did
+    reproduced = {(json.dumps(e["case"], sort_keys=True), e["failure"]["label"]) for e in seen_keys.values() if e["replay"].get("reproduced")}
+    hard_disagreements = [d for d in disagreements if (json.dumps(d["case"], sort_keys=True), d["failure"]["label"]) not in reproduced]
 
     wall = time.time() - t0
     evdir = os.environ.get("SX_EVIDENCE_DIR", os.path.join(VERIF, "evidence"))
